@@ -21,6 +21,11 @@
      return wf.g.compile(ctx, options)                           [w_graph_compile]
      n.checkAndAddMappedPath(paths of inputs)  (in a closure)    [check_mapped]
      n.g.addEdgeWithMappings(from, n.key, noControl, noData, …)  [add_edge_with_mappings]
+     wf.workflowNodes[key] = fresh node / lookup                 [wn_put] / [wn_has]
+     _ = wf.g.Add<Component>Node(key, …)                         [w_graph_addNode]
+     wf.workflowBranches = append(…, wb)                         [w_branches_append]
+     n.addInputs = append(n.addInputs, closure)                  [inputs_append]
+     n.staticValues[path] = value                                [statics_put]
    Definitions only. *)
 From Eino Require Import Base.Util Model.Builder Model.BuilderGenLib.
 Local Open Scope string_scope.
@@ -88,8 +93,23 @@ Definition statics_consume (k : string) (w : wstate) : wstate :=
 Definition w_graph_compile (w : wstate) (o : copt) : wstate * outcome :=
   let '(g', out) := g_compile fixed (w_g w) o in (w_set_g g' w, out).
 
-Definition oerr (eo : option ecls) : outcome := match eo with Some e => OErr e | None => OOk end.
-
 (* inside a closure *)
 Definition add_edge_with_mappings (g : gstate) (s e : string) (no_ctrl no_data : bool) (fs : list string) : gstate * option ecls :=
   let '(g', o) := g_add_edge g s e no_ctrl no_data fs in (g', err_of o).
+
+(* ---------------------------------------------------------------- the declaring calls *)
+(* _ = wf.g.Add<Component>Node(key, …): the graph's answer is dropped *)
+Definition w_graph_addNode (key : string) (nk : nkind) (needState : bool) (w : wstate) : wstate :=
+  w_set_g (fst (g_add_node (w_g w) key nk needState false false)) w.
+(* wf.workflowBranches = append(wf.workflowBranches, wb) *)
+Definition w_branches_append (from : string) (ends : list string) (w : wstate) : wstate :=
+  mkW (w_g w) (w_nodes w) (w_branches w ++ [(from, ends)]).
+(* n.addInputs = append(n.addInputs, closure) on the handle of node [key] *)
+Definition inputs_append (key : string) (i : winput) (w : wstate) : wstate :=
+  wn_update key (fun n => mkWN (wn_pending n ++ [i]) (wn_mapped n) (wn_static n)) w.
+(* n.staticValues[path] = value *)
+Definition statics_put (key f : string) (w : wstate) : wstate :=
+  wn_update key (fun n => mkWN (wn_pending n) (wn_mapped n) (if smem f (wn_static n) then wn_static n else wn_static n ++ [f])) w.
+(* which closure the options select: the kind of the recorded declaration *)
+Definition kind_of_options (o : bool * bool) : wkind :=
+  if fst o then WNoDirect else if snd o then WDepOnly else WNormal.
